@@ -274,3 +274,39 @@ func Fatalf(f string, a ...any) {
 	fmt.Fprintf(os.Stderr, f+"\n", a...)
 	os.Exit(2)
 }
+
+// Relax returns a copy of fs in which every filter with at least two of the conditions ids / authors /
+// kinds / tags has lost one of them (a query that is answered from a superset of what the original
+// query looked at: reading must not have changed what is there).
+func Relax(r *Rand, fs []JFilter) []JFilter {
+	out := make([]JFilter, len(fs))
+	for i, f := range fs {
+		var present []int
+		if f.IDs != nil {
+			present = append(present, 0)
+		}
+		if f.Authors != nil {
+			present = append(present, 1)
+		}
+		if f.Kinds != nil {
+			present = append(present, 2)
+		}
+		if f.Tags != nil {
+			present = append(present, 3)
+		}
+		if len(present) >= 2 {
+			switch present[r.Intn(len(present))] {
+			case 0:
+				f.IDs = nil
+			case 1:
+				f.Authors = nil
+			case 2:
+				f.Kinds = nil
+			case 3:
+				f.Tags = nil
+			}
+		}
+		out[i] = f
+	}
+	return out
+}
